@@ -26,6 +26,10 @@ def _tree(rng, depth):
         x = r.random()
         if x < 0.12:
             return r.choice(ADVERSARIAL)
+        if x > 0.93:
+            # ordinary data keys that merely look like the reader's placeholders (no comment / include is registered for them)
+            return r.choice(["LINECOMMENT000001", "LINECOMMENT000002", "BLOCKCOMMENT000010", "BLOCKCOMMENT000011", "my_BLOCKCOMMENT000010_a",
+                             "my_BLOCKCOMMENT000011_b", "INCLUDE000003", "INCLUDE000004", "EXPRESSION000001", "STRINGLITERAL000002"])
         return r.choice(["a", "b", "c", "k", 0, 1, 2, 7, "x'y", "long key"]) if x < 0.8 else gen.key(r)
     return gen.tree_dict(rng, depth, 3, leaf=lambda r: gen.scalar(r, strings=True), key_fn=keyf, p_dict=0.35, p_list=0.25)
 
